@@ -17,7 +17,8 @@ CHECKS = {
         text='Static inductive-invariant check: for every control-flow path of every lock-protected state function '
              '(helpers inlined), and for every node it touches, linked(final poll state) equals queue membership '
              'after the path\'s queue operations, given the same at entry; plus drop-reaches-unlink, Ready-leaves-unlinked, '
-             'link-only-when-pinned, no-lock-bypass, state-layer layering (nobody outside the state functions mutates '
+             'link-only-when-pinned, no-lock-bypass, nodes constructed unlinked, typestate also at loop heads, the fair-mutex assertion '
+             'discharged by its hand-over invariant, state-layer layering (nobody outside the state functions mutates '
              'lock-protected state), address-stability, handle-restored-on-Pending and a classification of all 70 '
              'explicit panic sites (unclassified site = violation). Holds for all histories and schedules '
              'because each obligation is about all paths of an atomic transition, not about sampled runs.',
@@ -39,7 +40,9 @@ CHECKS = {
     'C04': dict(
         technique='path-sensitive guard analysis over MIR (FairGate), queue-end rule, typestate',
         text='Structure of fair hand-over: the lock bit is set only on paths entitled to it in fair mode; waiters '
-             'enter at the front and are taken from the tail; the notified head stays linked.',
+             'enter at the front and are taken from the tail; the notified head stays linked; a queued waiter is never re-inserted '
+             '(only a New node is enqueued on a path that can be fair; the one excluded path is excluded by the '
+             'checked hand-over invariant).',
         note='Order preservation of LinkedList::remove is assumed (C20).', ref='5-C04'),
     'C05': dict(
         technique='path-sensitive dataflow over MIR (guarded subtraction, single growth site, value-origin equality)',
@@ -58,7 +61,8 @@ CHECKS = {
         technique='path-sensitive guard analysis over MIR (FairGate on permit subtraction), queue-end rule, typestate',
         text='Structure of fair service order: permits are subtracted only on paths entitled to it in fair mode '
              '(unfair, empty queue, zero request, notified head); zero-permit fast path exists; tail-only '
-             'notification; fair walk touches only the head and leaves it linked.',
+             'notification; fair walk touches only the head and leaves it linked; a queued acquirer is never re-inserted on a path '
+             'that can be fair.',
         note='Order preservation of LinkedList::remove is assumed (C20).', ref='5-C07'),
     'C16': dict(
         technique='trait-solver queries under each unsafe impl\'s own where-clauses (node-erased auto-trait '
@@ -78,7 +82,8 @@ CHECKS = {
         text='Monotone flag, effect-free AlreadyClosed path, drain-all-queues-with-waking-closure on the NewlyClosed '
              'path, acceptance of new values only under flag == false with the caller\'s own value handed back, '
              'flag-independent delivery paths, and counted close for every Clone handle (fetch_sub(1) == 1 on the '
-             'counter its Clone increments). Reported D3 (fixed).',
+             'counter its Clone increments). Clone panics only beyond the overflow limit; the variant predicates of CloseStatus / TrySendError / '
+             'TryReceiveError and into_inner say what the variant is. Reported D3 (fixed).',
         note='Relative to atomics doing what fetch_add/fetch_sub say.', ref='5-C11'),
     'C08': dict(
         technique='drop-site analysis on drop-elaborated MIR paths (dyn calls fanned out), result-use and '
@@ -133,7 +138,8 @@ CHECKS = {
         text='On every MIR path of all 14 poll/poll_next bodies: Ready => handle None, Pending => handle Some; every '
              'is_terminated is is_none() of that same field (or the stream flag); the handle is checked before any '
              'call into the primitive and the None case panics; cancel() clears the handle; streams latch '
-             'end-of-stream exactly and build their inner future with receive().',
+             'end-of-stream exactly and build their inner future with receive(); every future is constructed with a live handle and every stream '
+             'live (slot empty, not terminated).',
         note='Calls into the primitive through dyn are opaque here (their results are only correlated, not '
              'interpreted).', ref='5-C17'),
     'C18': dict(
@@ -150,7 +156,7 @@ CHECKS = {
                   '(guarded raw access, index advance through next_idx, size +-1), who-may-write scan',
         text='PARTIAL. Decided: access/accounting pairing of ArrayBuf (write at send_idx under size != LEN; read and '
              'drop at recv_idx under size > 0; the used index advances through next_idx, i+1 or 0 at LEN; size +-1; '
-             'Drop walks size elements), pure report functions, and the VecDeque delegation of the heap buffers. '
+             'Drop walks size elements and returns after 0, 1 and >= 2 of them), pure report functions, and the VecDeque delegation of the heap buffers. '
              'NOT decided: FIFO order and exactly-once drop as behaviour over all push/pop sequences - they follow '
              'from the schema by the textbook ring-buffer induction, which is not mechanised (program verification '
              'over integer values is outside this technique family here).',
@@ -161,7 +167,10 @@ CHECKS = {
         text='PARTIAL. Decided, per function and per MIR path: removed nodes carry no links (list and heap), both '
              'ends kept consistent under the entry invariant head None <=> tail None, neighbours spliced, non-member '
              'removal is a write-free false, drains clear links before each callback, meld makes the smaller node '
-             'the parent, remove re-attaches merged children, safe_lesser(a,b) is a < b. NOT decided: that the '
+             'the parent, remove re-attaches merged children, safe_lesser(a,b) is a < b and defuses its bomb; is_empty / is_root / maybe_meld / last_child agree with their schema; every walk '
+             '(drain, reverse_drain, last_child) has returning paths after 0, 1 and >= 2 steps; every internal '
+             'assertion can fail only on a path whose facts witness an inconsistent structure or a broken '
+             'precondition (R5). NOT decided: that the '
              'list is a deque and the heap a min-priority queue for every operation sequence with all links '
              'mutually consistent - functional correctness of pointer structures over unbounded histories is '
              'beyond shape rules; every other property assumes it through the queue-op summaries.',
